@@ -287,3 +287,89 @@ Proof.
   split; [apply (stores_show [(0, _); (97, _); (0, _)]%N [] []); [intros i _; destruct i as [|[|i]]; reflexivity | reflexivity]|].
   vm_compute. repeat split.
 Qed.
+
+(* ------------------------------------------------------------------------------------------ *)
+(* THE MODEL IS THE C TEXT (coq/TrLbufMarks.v): markidx, lbuf_mark, lbuf_jump of /repo/lbuf.c, translated by tools/c2clite.py into
+   CLite terms (coq/GenCFuncs.v, whitelist tools/c2clite.d/50_lbuf.list), RUN on a memory in which block bl is the struct lbuf
+   (75 cells; mark[32] = cells 0..31, mark_off[32] = cells 32..63).  markidx returns, for EVERY argument islower() is defined on,
+   the index of the models (ExDefs.markidx of this property; CapDefs2.markidx, C05's table form -- the two agree) and it is at
+   most 30, inside mark[]; lbuf_mark stores exactly the two cells mark[k], mark_off[k] (nothing for an invalid mark) and the rows
+   are then those of ExDefs.lbuf_mark; lbuf_jump fails exactly when ExDefs.lbuf_jump answers None, otherwise stores the model's
+   row through pos (and the column through off unless off is NULL) and returns 0.  The imports are local to the section. *)
+From Coq Require Import Lia.
+From NV Require CLite CLiteProps GenCFuncs CapDefs2 TrLbufBase TrLbufMarks.
+Section C06_translated.
+Import CLite CLiteProps GenCFuncs TrLbufBase TrLbufMarks.
+
+Theorem C06_tr_markidx : forall m (cn : N) d fuel, (cn < 256)%N ->
+  callf cprog fuel (S d) F_markidx [VInt (Z.of_N cn)] m
+    = Ok (VInt (match ExDefs.markidx cn with Some k => Z.of_nat k | None => -1 end), m)
+  /\ CapDefs2.markidx (Z.of_N cn) = match ExDefs.markidx cn with Some k => Z.of_nat k | None => -1 end
+  /\ match ExDefs.markidx cn with Some k => (k <= 30)%nat | None => True end.
+Proof. exact tr_markidx_model. Qed.
+
+(* islower() is defined on unsigned char values and EOF only: any other argument is undefined behaviour (ECtype) *)
+Theorem C06_tr_markidx_domain : forall m c d fuel,
+  (-1 <= c <= 255 -> callf cprog fuel (S d) F_markidx [VInt c] m = Ok (VInt (CapDefs2.markidx c), m)) /\
+  (c < -1 \/ 255 < c -> callf cprog fuel (S d) F_markidx [VInt c] m = Err ECtype).
+Proof. exact (fun m c d fuel => conj (tr_markidx m c d fuel) (tr_markidx_ctype m c d fuel)). Qed.
+
+Theorem C06_tr_lbuf_mark : forall m bl blk (l : lbuf) cn pos off d fuel,
+  nth_error m bl = Some blk -> length blk = LBUF_CELLS -> marks_rep blk (marks l) -> (cn < 256)%N -> i32 pos -> i32 off ->
+  let blk' := mark_blk blk (Z.of_N cn) pos off in
+  callf cprog fuel (S (S d)) F_lbuf_mark [VPtr bl 0; VInt (Z.of_N cn); VInt pos; VInt off] m
+    = Ok (VUndef, if 0 <=? midx cn then CLiteProps.upd m bl blk' else m)
+  /\ marks_rep blk' (marks (lbuf_mark l cn pos)).
+Proof. exact tr_lbuf_mark_model. Qed.
+
+Theorem C06_tr_lbuf_jump : forall m bl blk (l : lbuf) cn bp op pblk (offp : option (nat * Z * block)) d fuel,
+  nth_error m bl = Some blk -> marks_ints blk -> marks_rep blk (marks l) -> (cn < 256)%N ->
+  bp <> bl -> nth_error m bp = Some pblk -> 0 <= op < Z.of_nat (length pblk) ->
+  match offp with Some (bo, oo, oblk) => bo <> bl /\ bo <> bp /\ nth_error m bo = Some oblk /\ 0 <= oo < Z.of_nat (length oblk) | None => True end ->
+  let k := Z.to_nat (CapDefs2.markidx (Z.of_N cn)) in
+  callf cprog fuel (S (S d)) F_lbuf_jump
+    [VPtr bl 0; VInt (Z.of_N cn); VPtr bp op; match offp with Some (bo, oo, _) => VPtr bo oo | None => VInt 0 end] m
+  = match lbuf_jump l cn with
+    | None => Ok (VInt 1, m)
+    | Some row => Ok (VInt 0, let m1 := CLiteProps.upd m bp (CLiteProps.upd pblk (Z.to_nat op) (VInt row)) in
+                              match offp with
+                              | Some (bo, oo, oblk) => CLiteProps.upd m1 bo (CLiteProps.upd oblk (Z.to_nat oo) (VInt (cellz blk (M_OFF + k))))
+                              | None => m1
+                              end)
+    end.
+Proof. exact tr_lbuf_jump_model. Qed.
+
+(* not vacuous, and the translated functions RUN: the struct in block 12 with all marks unset, two int cells (blocks 13, 14)
+   for *pos and *off.  markidx: 'a' -> 0, 'z' -> 25, '`' and ''' -> 26, '*' -> 27, '[' -> 28, ']' -> 29, '^' -> 30, 'A' -> -1;
+   lbuf_jump on the unset mark 'c' fails; after lbuf_mark(lb, 'c', 7, 3) it returns 0 with *pos = 7, *off = 3; marking 'A' changes
+   nothing; the model's rows agree *)
+Example C06_tr_nonvacuous :
+  let blk0 := repeat (VInt (-1)) 32 ++ repeat (VInt 0) 32 ++
+              [VInt 0; VInt 0; VInt 0; VInt 0; VInt 1; VInt 0; VInt 0; VInt 0; VInt 0; VInt 0; VInt 0] in
+  let m0 := repeat [] 12 ++ [blk0; [VInt 55]; [VInt 66]] in
+  let l0 := mklb [] (repeat (-1, None) 32) [] 0 1 0 0 0 in
+  let mi c := match callf cprog 1 3 F_markidx [VInt c] m0 with Ok (VInt k, _) => k | _ => -99 end in
+  marks_rep blk0 (marks l0) /\ marks_ints blk0 /\
+  map mi [97; 122; 96; 39; 42; 91; 93; 94; 65] = [0; 25; 26; 26; 27; 28; 29; 30; -1] /\
+  callf cprog 1 3 F_lbuf_jump [VPtr 12 0; VInt 99; VPtr 13 0; VPtr 14 0] m0 = Ok (VInt 1, m0) /\ lbuf_jump l0 99 = None /\
+  match callf cprog 1 3 F_lbuf_mark [VPtr 12 0; VInt 99; VInt 7; VInt 3] m0 with
+  | Ok (_, m1) =>
+      nth_error m1 12%nat = Some (mark_blk blk0 99 7 3) /\
+      (exists m2, callf cprog 1 3 F_lbuf_jump [VPtr 12 0; VInt 99; VPtr 13 0; VPtr 14 0] m1 = Ok (VInt 0, m2) /\
+                  nth_error m2 13%nat = Some [VInt 7] /\ nth_error m2 14%nat = Some [VInt 3]) /\
+      lbuf_jump (lbuf_mark l0 99 7) 99 = Some 7 /\
+      callf cprog 1 3 F_lbuf_mark [VPtr 12 0; VInt 65; VInt 7; VInt 3] m1 = Ok (VUndef, m1)
+  | Err _ => False
+  end.
+Proof.
+  cbv zeta. split.
+  { split; [reflexivity|]. intros k Hk. do 32 (destruct k as [|k]; [reflexivity|]). lia. }
+  split. { intros j Hj. do 32 (destruct j as [|j]; [exists (-1); split; [reflexivity|unfold i32; lia]|]).
+           do 32 (destruct j as [|j]; [exists 0; split; [reflexivity|unfold i32; lia]|]). lia. }
+  vm_compute. repeat split. eexists. repeat split.
+Qed.
+End C06_translated.
+Print Assumptions C06_tr_markidx.
+Print Assumptions C06_tr_markidx_domain.
+Print Assumptions C06_tr_lbuf_mark.
+Print Assumptions C06_tr_lbuf_jump.
